@@ -629,20 +629,20 @@ func main() {
 						pre := append([]op(nil), c.Ops...)
 						c.Ops = append(c.Ops, op{Add: true, Pfx: 1 - pf, Path: pa}, op{Add: true, Pfx: pf, Path: pa}, op{Add: false, Pfx: pf, Path: pa})
 						gcases = append(gcases, c)
-						mk := func(held int, ops ...op) {
+						heldCase := func(held int, ops ...op) {
 							d := k
 							d.Gated, d.Held, d.HoldPath = true, held, 1+pa
 							d.Ops = append(append([]op(nil), pre...), ops...)
 							gcases = append(gcases, d)
 						}
 						// the path is queued for one prefix and being written: a second prefix gets the same path
-						mk(1, op{Add: true, Pfx: pf, Path: pa}, op{Add: true, Pfx: 1 - pf, Path: pa})
+						heldCase(1, op{Add: true, Pfx: pf, Path: pa}, op{Add: true, Pfx: 1 - pf, Path: pa})
 						// queued for two prefixes: a third one gets it
-						mk(1, op{Add: true, Pfx: pf, Path: pa}, op{Add: true, Pfx: 1 - pf, Path: pa}, op{Add: true, Pfx: 2, Path: pa})
+						heldCase(1, op{Add: true, Pfx: pf, Path: pa}, op{Add: true, Pfx: 1 - pf, Path: pa}, op{Add: true, Pfx: 2, Path: pa})
 						// a second prefix gets the path and the first one loses it
-						mk(2, op{Add: true, Pfx: pf, Path: pa}, op{Add: true, Pfx: 1 - pf, Path: pa}, op{Add: false, Pfx: pf, Path: pa})
+						heldCase(2, op{Add: true, Pfx: pf, Path: pa}, op{Add: true, Pfx: 1 - pf, Path: pa}, op{Add: false, Pfx: pf, Path: pa})
 						// two further prefixes get it
-						mk(2, op{Add: true, Pfx: pf, Path: pa}, op{Add: true, Pfx: 2, Path: pa}, op{Add: true, Pfx: 1 - pf, Path: pa})
+						heldCase(2, op{Add: true, Pfx: pf, Path: pa}, op{Add: true, Pfx: 2, Path: pa}, op{Add: true, Pfx: 1 - pf, Path: pa})
 					}
 				}
 			}
